@@ -21,9 +21,10 @@ Property: "every draw lies in the support (integer-valued for discrete laws)".
   of `Normal.sample (fuel + 1)`.  Every way of obtaining it (equation lemmas, `unfold`, `rfl` against the body, `delta` +
   `dsimp`) fails to terminate within minutes in Lean 4.33 — already `#check @Cv.Normal.sample.eq_2` in a file importing only
   `Compute.Model.Samplers` — apparently because reducing the `match g.u64 with` unfolds the wyrand mixer on a symbolic state.
-* Compositions (`chi_squared_pos`, `t_support`, `beta_support`): χ² draws are `> 0` for `dof ≥ 2`, and for `dof = 1` iff the
-  boosting uniform is not `0` (`chi_squared_zero`: with `u = 0` the draw is exactly `0`); Student-t divides by `√G` with
-  `G > 0` under the same condition; Beta draws lie in `[0, 1]` in every branch (re-export of `C03.beta_sample_support`).
+* Compositions (`chi_squared_pos`, `t_support`, `beta_support`): χ² draws are `> 0` for every `dof ≥ 1`; Student-t divides by
+  `√G` with `G > 0` for every `ν > 0` (both after repair F54: the boosting uniform of a gamma draw below shape 1 is redrawn
+  while it is `0`; before it χ²(1) returned exactly `0` and t returned `±∞` at those states); Beta draws lie in `[0, 1]` in
+  every branch (re-export of `C03.beta_sample_support`).
 -/
 set_option linter.unusedSectionVars false
 set_option linter.unusedSimpArgs false
@@ -322,33 +323,17 @@ example : (0 : ℝ) < Normal.zR := zR_pos
 
 /-! ## Compositions -/
 
-/-- **Chi-squared draws are `> 0`** for `dof ≥ 2`, and for `dof = 1` whenever the boosting uniform is not `0`. -/
+/-- **Chi-squared draws are `> 0`**, every `dof ≥ 1` and every returning call (after repair F54 the boosting uniform of
+`dof = 1` is redrawn while it is `0`; before it the draw was exactly `0` there). -/
 theorem chi_squared_pos (fuel k : ℕ) (hk : 0 < k) (g g' : Rng) (x : ℝ)
-    (hcond : 2 ≤ k ∨ 0 < (g.f64 (α := ℝ)).1)
-    (h : ChiSquared.sample (α := ℝ) fuel k g = some (x, g')) : 0 < x := by
-  rw [C03.chi_squared_is_gamma] at h
-  have hk' : (0 : ℝ) < (k : ℝ) / 2 := by positivity
-  by_cases h1 : (k : ℝ) / 2 < 1
-  · have hk2 : ¬ 2 ≤ k := by
-      intro h2
-      have : (2 : ℝ) ≤ (k : ℝ) := by exact_mod_cast h2
-      linarith
-    exact (C03.gamma_support_lt_one fuel _ _ hk' h1 (by norm_num) g g' x h).2 (hcond.resolve_left hk2)
-  · exact C03.gamma_support_ge_one fuel _ _ (not_lt.mp h1) (by norm_num) g g' x h
+    (h : ChiSquared.sample (α := ℝ) fuel k g = some (x, g')) : 0 < x :=
+  C03.chi_squared_support fuel k hk g g' x h
 
-/-- The condition cannot be dropped: with one degree of freedom and a boosting uniform equal to `0` the draw is exactly `0`
-(outside the open support `(0, ∞)`; the event has probability `2⁻⁵³` per draw). -/
-theorem chi_squared_zero (fuel : ℕ) (g g' : Rng) (x : ℝ) (hu : (g.f64 (α := ℝ)).1 = 0)
-    (h : ChiSquared.sample (α := ℝ) fuel 1 g = some (x, g')) : x = 0 := by
-  rw [C03.chi_squared_is_gamma] at h
-  exact gamma_zero_of_zero_uniform fuel _ _ (by norm_num) (by norm_num) g g' x hu h
-
-/-- **Student t**: the draw is `√(ν/2)·Z/√G` with `G ≥ 0`, and the denominator `√G` is `> 0` — the quotient is an honest
-real division — for `ν ≥ 2`, and for `ν < 2` whenever the boosting uniform of the gamma draw is not `0`. -/
+/-- **Student t**: the draw is `√(ν/2)·Z/√G` with `G > 0`: the denominator `√G` is `> 0` for every `ν > 0`, so the quotient
+is an honest real division (after repair F54 also at the zero-uniform states, where it used to be `±∞`). -/
 theorem t_support (fuel : ℕ) (nu : ℝ) (hnu : 0 < nu) (g g' : Rng) (t : ℝ) (h : T.sample fuel nu g = some (t, g')) :
     ∃ (z gm : ℝ) (g1 : Rng), Normal.sample fuel (0 : ℝ) 1 g = some (z, g1) ∧ Gamma.sample fuel (nu / 2) 1 g1 = some (gm, g') ∧
-      t = Real.sqrt (nu / 2) * z / Real.sqrt gm ∧ 0 ≤ gm ∧
-      ((2 ≤ nu ∨ 0 < (g1.f64 (α := ℝ)).1) → 0 < Real.sqrt gm) := by
+      t = Real.sqrt (nu / 2) * z / Real.sqrt gm ∧ 0 < gm ∧ 0 < Real.sqrt gm := by
   cases hz : Normal.sample fuel (0 : ℝ) 1 g with
   | none => simp [T.sample, hz] at h
   | some r =>
@@ -366,13 +351,8 @@ theorem t_support (fuel : ℕ) (nu : ℝ) (hnu : 0 < nu) (g g' : Rng) (t : ℝ) 
       obtain ⟨ht, hg2⟩ := h
       subst hg2
       have hnu2 : 0 < nu / 2 := by positivity
-      refine ⟨z, gm, g1, rfl, hg, ht.symm, C03.gamma_support_nonneg fuel _ 1 hnu2 one_pos g1 g2 gm hg, ?_⟩
-      intro hc
-      apply Real.sqrt_pos.mpr
-      by_cases h1 : nu / 2 < 1
-      · have : ¬ 2 ≤ nu := by intro h2; linarith
-        exact (C03.gamma_support_lt_one fuel _ 1 hnu2 h1 one_pos g1 g2 gm hg).2 (hc.resolve_left this)
-      · exact C03.gamma_support_ge_one fuel _ 1 (not_lt.mp h1) one_pos g1 g2 gm hg
+      have hgm := C03.gamma_support_pos fuel _ 1 hnu2 one_pos g1 g2 gm hg
+      exact ⟨z, gm, g1, rfl, hg, ht.symm, hgm, Real.sqrt_pos.mpr hgm⟩
 
 /-- **Beta support** (both branches, the underflow branch `x + y = 0` included): re-export of `C03.beta_sample_support`. -/
 theorem beta_support (fuel : ℕ) (a b : ℝ) (ha : 0 < a) (hb : 0 < b) (g g' : Rng) (v : ℝ)
